@@ -59,7 +59,7 @@ GROUP = {
 def _failure_class(case, j):
     """canonical class of a failing behaviour (key of a finding): exception, http-error, empty-body/<label>[/falsy-id],
     malformed-body, no-message-in-body"""
-    r = case["reqs"][j]
+    r = [x for x in case["reqs"] if x.get("garbage") is None][j]
     e = G.expect(r["b"])
     cls = e["cls"]
     cls = GROUP.get(cls, cls)
@@ -86,9 +86,16 @@ def _sse_feature(body):
 
 def oracle(case, obs):
     """The property, read off the implementation's observation alone."""
-    reqs = case["reqs"]
     if obs.get("crash"):
         return ("client-crashed", f"http_client raised {obs['crash']}", {"fence": True})
+    if case.get("leave_at") is not None:
+        return None  # leaving the context with a POST in flight: only "does not raise / hang" is checked
+    if obs.get("round2") is not None:
+        r2 = oracle(case, dict(obs["round2"], round2=None))
+        if r2 is not None:
+            return (r2[0], "second connection with the same parameters object: " + r2[1], r2[2])
+    all_reqs = case["reqs"]
+    reqs = [r for r in all_reqs if r.get("garbage") is None]
     T = [m for m in obs["transcript"] if not (m["id"] == {"s": H.FENCE_ID})]
     exps = [G.expect(r["b"]) for r in reqs]
     rid = [r["id"] for r in reqs]
@@ -153,21 +160,26 @@ def oracle(case, obs):
         elif n > 1:
             return ("duplicate-terminal/other", f"request {j}: {n} terminal messages", {"request": j, "terminals": "<=1"})
 
-    # session header
-    last = None
-    maybe: set = set()
+    # session header: a POST carries the most recent session id issued (on an accepted status) by the
+    # answers that were complete before it reached the server; ids offered on error statuses since may be adopted
+    events = obs.get("events") or []
     hdrs = obs["hdrs"]
-    behaviours = [r["b"] for r in reqs] + [None]
-    for k in range(min(len(hdrs), len(behaviours))):
-        if last is not None and hdrs[k] != last and hdrs[k] not in maybe:
-            return ("session-header-stale", f"POST {k} carries session {hdrs[k]!r}, most recent issued is {last!r}", {"post": k, "session": last})
-        b = behaviours[k]
-        if b is None or "exc" in b or b.get("sess") is None:
-            continue
-        if b["status"] < 400:
-            last, maybe = b["sess"], set()
-        else:
-            maybe.add(b["sess"])
+
+    def beh(k):
+        return all_reqs[k]["b"] if isinstance(k, int) and 0 <= k < len(all_reqs) and all_reqs[k].get("garbage") is None else None
+
+    for j, (k, a, d) in enumerate(events):
+        last, maybe = None, set()
+        for d2, k2 in sorted((e[2], e[0]) for e in events if e[2] is not None and e[2] < a):
+            b = beh(k2)
+            if b is None or "exc" in b or b.get("sess") is None:
+                continue
+            if b["status"] < 400:
+                last, maybe = b["sess"], set()
+            else:
+                maybe.add(b["sess"])
+        if last is not None and hdrs[j] != last and hdrs[j] not in maybe:
+            return ("session-header-stale", f"POST {j} carries session {hdrs[j]!r}, most recent issued is {last!r}", {"post": j, "session": last})
     return None
 
 
@@ -186,7 +198,13 @@ class _Base(Suite):
     def compare(self, case, o, m):
         if "driver_error" in m:
             return "driver error"
-        return None if H.same(case, H.comparable_impl(o), m) else "transcript or headers differ"
+        if o.get("crash"):
+            return "client crashed"
+        if not H.same(case, H.comparable_impl(o), m):
+            return "transcript or headers differ"
+        if o.get("round2") is not None and not H.same(case, H.comparable_impl(o["round2"]), m):
+            return "second connection differs"
+        return None
 
     def oracle(self, case, o):
         return oracle(case, o)
@@ -198,7 +216,7 @@ class _Base(Suite):
         return G.shrink_candidates(case)
 
     def kind(self, case, o):
-        r = case["reqs"][0]
+        r = [x for x in case["reqs"] if x.get("garbage") is None][0]
         b = r["b"]
         idk = "notif" if r["id"] is None else ("falsy" if not G.idval(r["id"]) else "req")
         if "exc" in b:
@@ -219,8 +237,9 @@ class SseEncodings(_Base):
     name = "sse-encodings"
 
     def cases(self, ctx, budget):
-        ctx.exhaustive_parts.append("sse-encodings: every combination of event field x data space x eol x ignored lines x ending x multi-line x content")
-        return G.sse_encodings(stride=1 if budget != "quick" else 1)
+        if budget != "quick":
+            ctx.exhaustive_parts.append("sse-encodings: every combination of event field x data space x eol x ignored lines x ending x multi-line x content")
+        return G.sse_encodings(stride=1 if budget != "quick" else 3)  # 3 is coprime to the periods (2, 4) of the derived choices
 
     def kind(self, case, o):
         body = case["reqs"][0]["b"]["body"]
@@ -237,7 +256,7 @@ class Sequences(_Base):
         out = G.pairs()
         ctx.exhaustive_parts.append("sequences: every ordered pair over the 32-letter behaviour alphabet")
         rng = ctx.sub_rng("c11-seq", budget)
-        n = {"quick": 600, "thorough": 30000, "search": 8000}[budget]
+        n = {"quick": 400, "thorough": 30000, "search": 8000}[budget]
         out += G.sampled_sequences(rng, n, maxlen=4)
         return out
 
@@ -250,8 +269,26 @@ class Seeded(_Base):
 
     def cases(self, ctx, budget):
         rng = ctx.sub_rng("c11-rand", budget)
-        n = {"quick": 1500, "thorough": 40000, "search": 15000}[budget]
+        n = {"quick": 800, "thorough": 40000, "search": 15000}[budget]
         return [G.random_single(rng, k) for k in range(n)]
+
+
+class Hardening(_Base):
+    """generic hardening sweep (falsy values, type twins, constants of the source, format-hostile
+    text, limits and backpressure, reuse, rarely taken branches, unusual structure, timing)"""
+    name = "hardening"
+
+    def cases(self, ctx, budget):
+        ctx.notes.append(
+            "branch coverage of transports/http/transport.py under the generated cases (coverage.py, branch mode, measured while "
+            "building the sweep): every statement reached except get_streams() before start (69), set_protocol_version (115), the "
+            "defensive handlers 120/127-128/330-333/431-432/453-454, the streaming SSE branch 352-391 (dead: httpx responses always "
+            "have .text) and the pending-future branch 473-480 (dead: the unified message class always has a `method` attribute); "
+            "the hard/* buckets of the distribution name the sweep classes")
+        return G.hardening(ctx.sub_rng("c11-hard", budget), budget)
+
+    def kind(self, case, o):
+        return "hard/" + case.get("hk", "?")
 
 
 class Render(Suite):
@@ -319,4 +356,4 @@ class RealSocket(_Base):
 
 
 def suites():
-    return [Singles(), SseEncodings(), Sequences(), Seeded(), Render(), RealSocket()]
+    return [Singles(), SseEncodings(), Sequences(), Seeded(), Hardening(), Render(), RealSocket()]
